@@ -259,6 +259,27 @@ async def _run(loop, case, ctx_info, tmp):
                     n = max(n, 64)
                 rec.update(offset=off, read_mode=["iter_by_block", "read(n)", "read(-1)"][mode], n=n,
                            offset_class=("none" if not off else "inside" if off < len(cur) else "at_end" if off == len(cur) else "beyond_end"))
+                if kind == "retr_off" and seed % 3 == 0:
+                    # a restart offset handed to a transfer that is refused (missing file) must not reach the next
+                    # transfer: same passive connection, no command in between, the whole file is due
+                    rec.update(variant="after_refused_restart")
+                    reader, writer = await client.get_passive_connection("I")
+                    await client.command("REST %d" % max(1, off), "350")
+                    await client.command("RETR no-such-file-%d" % i, ("4xx", "5xx"))
+                    await client.command("RETR " + name, "1xx")
+                    buf = bytearray()
+                    while True:
+                        blk = await reader.read(8192)
+                        if not blk:
+                            break
+                        buf += blk
+                    writer.close()
+                    await client.command(None, "2xx")
+                    ctx_info["nontrivial"] = True
+                    if bytes(buf) != cur:
+                        raise Violation(f"C01/retr_after_refused_restart/downloaded_bytes/{diff_kind(bytes(buf), cur)}",
+                                        dict(rec=rec, got_len=len(buf), exp_len=len(cur), first_diff=first_diff(bytes(buf), cur)))
+                    continue
                 got = await download(client, name, off, mode, n)
                 exp = cur[off:]
                 if off or special(exp) or (len(exp) > block and len(exp) % block):
